@@ -1,5 +1,6 @@
 import CvssVerif.Proofs.Formulas
 import CvssVerif.Props.E2E
+import CvssVerif.Props.E2E2
 /-
   The tie by translation for the score properties (C01–C06, C13).
 
@@ -70,6 +71,17 @@ theorem source_scores_of_string (s : Bytes) (o : V3.Obj3) (h : V3.decode .enviro
   obtain ⟨v, t, n, hv, h1, h2, h3⟩ := E2E.env_scores_of_string s o h
   exact ⟨v, t, n, hv, by rw [FormulaTie.base3]; exact h1, by rw [FormulaTie.temporal3]; exact h2,
     by rw [FormulaTie.env3]; exact h3⟩
+
+/-- v2, from the byte string to the source text: the three v2 score functions *as written in /repo*, on the object
+    any v2 decoder leaves behind for an accepted string, are the model functions C04/C05/C13 are about. -/
+theorem source_scores_of_string2 (L : Level) (s : Bytes) (o : V2.Obj2) (h : V2.decode L V2.Obj2.new s = (o, none)) :
+    ∃ (tv : Option Spec2.TempVec) (nv : Option Spec2.EnvVec),
+      Gen.F2.Base_Score o = P2.modelBase (E2E2.baseOfObj o) ∧
+      Gen.F2.Temporal_Score o = C04.modelTemporal (E2E2.baseOfObj o) tv ∧
+      Gen.F2.Environmental_Score o = C05.modelEnv (E2E2.baseOfObj o) tv nv := by
+  obtain ⟨_, tv, nv, _, _, _, h1, h2, h3⟩ := E2E2.scores_of_string L s o h
+  exact ⟨tv, nv, by rw [FormulaTie.base2]; exact h1, by rw [FormulaTie.temporal2]; exact h2,
+    by rw [FormulaTie.env2]; exact h3⟩
 
 /-- C06 for the source text: the severity the source computes is the model's at every level. -/
 theorem severity3_source (o : V3.Obj3) :
